@@ -104,6 +104,21 @@ PROPS = {
    "expansion on two fresh encoders inside arbitrary contexts); oracle: same result class, same depth, both decode to "
    "the stream's value.",
    "Kernel-checked for the CBOR encoder; UBJSON/JSON by mirror + correspondence + oracle."),
+ "C11": P("DESIGN.md 7 C11",
+   "Lean 4 proof (scalar core of the round trip: every integer width, float bits, strings) + differential correspondence of the composed mirrors fold -> codec -> unfold + independent deep-equality oracle",
+   "int_roundtrip / int_widening / wrapTo_of_inRange / float_bits_roundtrip / string_roundtrip / nil_resets: the unfolder's "
+   "conversion table assigns exactly the value of the event Fold emits, for every integer kind and every value of it (no "
+   "wrap at any width boundary), exact float bits, arbitrary bytes. Correspondence: op `fu <type> <value> <path>` = Go "
+   "Fold -> [encoder -> parser of json | ubjson | cborl] -> Unfolder on a fresh target of the same type, compared with the "
+   "composed Lean mirrors (SF/Ops/Fu.lean: Fold mirror, codec mirrors, Unfold mirror, universe translation SF/Gotype/"
+   "Translate.lean); type-directed random values over all kinds, tagged structs (omitempty, inline/squash, -, omit), named, "
+   "self-referential and mutually recursive types with finite values, pointers, interfaces holding every dynamic type, "
+   "nil vs empty containers, unsupported kinds (must be refused with an error, never a crash). Oracle independent of the "
+   "mirrors: result ok and deeply equal to the original modulo nil = empty, omitted-when-empty / dropped fields zero.",
+   "Kernel-checked scalar round trip for all widths and values; containers, structs, pointers and the codec paths by mirror + correspondence + oracle.",
+   tb=["models: SF/Gotype/Fold.lean, SF/Gotype/Unfold.lean, codec mirrors; composition SF/Ops/Fu.lean; translation between the two type universes SF/Gotype/Translate.lean"],
+   assumptions=GOTYPE_ASSUME,
+   partial="fold_unfold_id over all supported types and values (statement in Props/C11.lean) not yet proved; decided by oracle on generated types x values x paths"),
  "C12": P("DESIGN.md 7 C12",
    "Lean 4 proof (code's tag parser = documented tag grammar for every tag string; announced-length rule) + differential correspondence of the Fold mirror + independent Rules specification as oracle",
    "tag_rules_agree: for every tag string the code's parseTags and the documented grammar (Rules.parseTag) agree on member "
